@@ -443,8 +443,12 @@ fn eviction_of_modified_documents(rep: &'static Report) -> Value {
     let buf = "import pytest\n\n@pytest.fixture\ndef ev():\n    return 1\n\nA = 1\nB = 2\n\ndef test_e(ev):\n    pass\n";
     let m = 300usize;
     let docs: Vec<PathBuf> = (0..m).map(|i| sc.path().join(format!("open{}/test_e.py", i))).collect();
-    for p in &docs {
-        write_file(sc.path(), &crate::db::rel(p, &sc.path().to_string_lossy()), disk);
+    // every other document's file on disk is a permutation of the buffer's lines: same byte length,
+    // other content (so that no file attribute can stand in for comparing the text)
+    let disk_perm = "import pytest\n\n@pytest.fixture\ndef ev():\n    return 1\n\ndef test_e(ev):\n    pass\n\nA = 1\nB = 2\n";
+    assert_eq!(disk_perm.len(), buf.len());
+    for (i, p) in docs.iter().enumerate() {
+        write_file(sc.path(), &crate::db::rel(p, &sc.path().to_string_lossy()), if i % 2 == 0 { disk } else { disk_perm });
         db.analyze_file(p.clone(), buf);
     }
     let ask = |db: &FixtureDatabase, p: &PathBuf| db.find_fixture_definition(p, 9, 12).map(|d| d.line);
@@ -466,7 +470,7 @@ fn eviction_of_modified_documents(rep: &'static Report) -> Value {
             }
         }
     }
-    json!({"modified_open_documents": m, "whose_text_was_evicted": evicted, "whose_answers_changed": changed})
+    json!({"modified_open_documents": m, "of_which_same_byte_length_as_on_disk": m / 2, "whose_text_was_evicted": evicted, "whose_answers_changed": changed})
 }
 
 fn eviction_conformance(rep: &'static Report) -> Value {
